@@ -79,21 +79,21 @@ def agg():
                              "sel": [[1, "u", 2], [1, "u", 3], [1, "u", 5], [2, "v", 5], [4, "w", 1]]}})
 
 def mutual():
-    """mutual recursion over two inputs, arithmetic in the head inside a bounded range, internal relation between."""
+    """mutual recursion (one relation internal), a relation given by facts only (internal), arithmetic in a bounded range."""
     x, y, z = V("x"), V("y"), V("z")
-    return finish({"id": "api_mut", "rels": [rel("s0", "i", inp=True), rel("st", "ii", inp=True), rel("ev", "i", out=True),
+    return finish({"id": "api_mut", "rels": [rel("s0", "i", inp=True), rel("st", "ii"), rel("ev", "i", out=True),
                                              rel("od", "i"), rel("reach", "ii", out=True)],
-                   "clauses": [cl(atom("st", N(0), N(1))),
+                   "clauses": [cl(atom("st", N(0), N(1))), cl(atom("st", N(1), N(2))), cl(atom("st", N(2), N(3))),
                                cl(atom("ev", x), atom("s0", x)),
                                cl(atom("od", y), atom("ev", x), atom("st", x, y)),
                                cl(atom("ev", y), atom("od", x), atom("st", x, y)),
                                cl(atom("reach", x, z), atom("ev", x), atom("od", y),
                                   cmp_("EQ", z, F("ADD", x, y)), cmp_("LE", z, N(6)))],
                    "strata": [["s0"], ["st"], ["ev", "od"], ["reach"]],
-                   "univ": {"s0": [[0], [2]], "st": [[1, 2], [2, 0]]},
-                   "files": {"s0": [[1]], "st": [[1, 0]]},
-                   "probe": {"s0": [[0], [1], [2]], "st": [[0, 1], [1, 2], [1, 0], [2, 1]], "ev": [[0], [1], [2]],
-                             "od": [[0], [1], [2]], "reach": [[0, 1], [2, 3], [0, 3], [2, 1], [1, 1], [2, 2]]}})
+                   "univ": {"s0": [[0], [2]]},
+                   "files": {"s0": [[1], [2]]},
+                   "probe": {"s0": [[0], [1], [2]], "st": [[0, 1], [1, 2], [1, 0]], "ev": [[0], [1], [2], [3]],
+                             "od": [[0], [1], [2], [3]], "reach": [[0, 1], [2, 3], [0, 3], [2, 1], [1, 1], [3, 3]]}})
 
 HAND = [tc, negp, agg, mutual]
 
